@@ -231,10 +231,13 @@ func (g *typeGen) structType(depth int, embed bool) reflect.Type {
 			// the "string" option: numbers and booleans written as strings
 			switch f.Type.Kind() {
 			case reflect.Bool, reflect.Int, reflect.Int8, reflect.Int16, reflect.Int32, reflect.Int64, reflect.Uint, reflect.Uint8, reflect.Uint16, reflect.Uint32, reflect.Uint64, reflect.Float32, reflect.Float64:
-				if r.Intn(2) == 0 {
+				switch r.Intn(3) {
+				case 0:
 					f.Tag = reflect.StructTag(fmt.Sprintf(`json:"t%d,string"`, i))
-				} else {
+				case 1:
 					f.Tag = reflect.StructTag(fmt.Sprintf(`json:"t%d,omitempty,string"`, i))
+				default: // the options in the other order
+					f.Tag = reflect.StructTag(fmt.Sprintf(`json:"t%d,string,omitempty"`, i))
 				}
 			}
 		}
